@@ -47,7 +47,7 @@ Definition decode_raises : list exn := [ELookup; EUnicode; EUnicodeDecode; EValu
 Definition dh_declared (dh : dh_answer) : Prop :=
   match dh with
   | DHRaise e => e = EHeaderParse
-  | DHAtoms atoms => Forall (fun a => in_set (snd a) decode_raises = true) atoms
+  | DHAtoms atoms enc => Forall (fun a => in_set (snd a) decode_raises = true) atoms /\ in_set enc [EUnicode] = true
   end.
 
 Lemma decode_raises_caught : forall e, In e decode_raises -> caught e text_catch = true.
@@ -68,9 +68,11 @@ Lemma decode_text_total : forall value dh,
   dh_declared dh -> total4xx (decode_text cfg_fixed value dh) = true.
 Proof.
   intros value dh H. unfold decode_text. destruct (negb (has_sub s_eqq value)); [reflexivity|].
-  destruct dh as [e|atoms]; cbn [f_text cfg_fixed].
+  destruct dh as [e|atoms enc]; cbn [f_text cfg_fixed].
   - cbn in H. subst e. reflexivity.
-  - now apply text_atoms_fixed_total.
+  - destruct H as [Ha He]. pose proof (text_atoms_fixed_total atoms Ha) as Ht.
+    destruct (text_atoms_fixed atoms); try exact Ht.
+    apply in_set_inv in He. destruct He as [->|[e [-> [<-|[]]]]]; reflexivity.
 Qed.
 
 Lemma process_header_total : forall is_cookie value dh ck,
